@@ -218,6 +218,34 @@ def rule_decimal(ctx):
     decide_kinds(ctx, "O2.3", "Decimal separator translation", FIELDS + "DecimalFieldFormat.validated_value", cell, min_cells=500)
 
 
+    # the separators in force are those of the data format for text formats (delimited AND fixed); spreadsheet formats
+    # deliver numbers with "." and without grouping
+    def separators_cell(ch):
+        from ..absint import ClassRef
+
+        format_name = ch.choose("format", ["delimited", "fixed", "excel", "ods"])
+        declared = ch.choose("declared separators", [(".", ","), (",", "."), (".", "")])
+        interp = Interp(model, ch, stubs={
+            "cutplace.ranges.DecimalRange": stub(lambda i, a, k: Obj(model.cls("cutplace.ranges.DecimalRange"), {"_precision": 2, "_scale": 5, "_items": None})),
+            "cutplace.ranges.Range": stub(lambda i, a, k: Obj(model.cls("cutplace.ranges.Range"), {"_items": None, "_lower_limit": None, "_upper_limit": None}))})
+        world = World(model, interp, ch)
+        data_format = world.data_format(format_name)
+        if format_name in ("delimited", "fixed"):
+            data_format.attrs.update({"_decimal_separator": declared[0], "_thousands_separator": declared[1]})
+        key = "%s declared=%r/%r" % (format_name, declared[0], declared[1])
+        try:
+            field = interp.instantiate(ClassRef(model.cls(FIELDS + "DecimalFieldFormat")), ["d", False, "", "", data_format], {})
+        except AbsRaise as raised:
+            return (key, "construction raises " + exc_name(raised.value), exc_name(raised.value))
+        actual = (field.attrs.get("decimal_separator"), field.attrs.get("thousands_separator"))
+        expected = declared if format_name in ("delimited", "fixed") else (".", "")
+        if actual != expected:
+            return (key, "Decimal field does not use the separators in force for the format", "uses %r, in force: %r" % (actual, expected))
+        return (key, None, None)
+
+    decide_kinds(ctx, "O2.3", "Decimal separators in force per format", FIELDS + "DecimalFieldFormat.__init__", separators_cell, min_cells=12)
+
+
 # ------------------------------------------------------------------------------------------ O2.4 / O2.7
 def rule_choice_constant_text(ctx):
     model = ctx.model
@@ -434,15 +462,30 @@ def rule_range_from_length(ctx):
         items = []
         count = ch.choose("items", [1, 2])
         for index in range(count):
-            # items of a parsed length range do not overlap: the second item starts after the first one ends
-            first_upper = items[0][1] if items else None
-            if index == 1 and first_upper is None:
-                return None
-            lower_pool = lowers if index == 0 else [value for value in lowers if value is not None and value > first_upper]
-            if not lower_pool:
-                return None
-            lower = ch.choose(("lower", index), lower_pool)
-            upper = ch.choose(("upper", index), [u for u in uppers if u is None or lower is None or u >= lower])
+            # items of a parsed length range do not overlap, but they can be declared in any order: the second item lies
+            # entirely after the first one or entirely before it
+            if index == 0:
+                lower = ch.choose(("lower", index), lowers)
+                upper = ch.choose(("upper", index), [u for u in uppers if u is None or lower is None or u >= lower])
+            else:
+                first_lower, first_upper = items[0]
+                side = ch.choose("second item", ["after the first", "before the first"])
+                if side == "after the first":
+                    if first_upper is None:
+                        return None
+                    lower_pool = [value for value in lowers if value is not None and value > first_upper]
+                    if not lower_pool:
+                        return None
+                    lower = ch.choose(("lower", index), lower_pool)
+                    upper = ch.choose(("upper", index), [u for u in uppers if u is None or u >= lower])
+                else:
+                    if first_lower is None or first_lower <= 1:
+                        return None
+                    upper_pool = [value for value in uppers if value is not None and value < first_lower]
+                    if not upper_pool:
+                        return None
+                    upper = ch.choose(("upper", index), upper_pool)
+                    lower = ch.choose(("lower", index), [value for value in lowers if value is None or value <= upper])
             if lower is None and upper is None:
                 return None
             items.append((lower, upper))
